@@ -268,6 +268,13 @@ def main(n: int, c: bool):
             r0(x, 0.5)
         f1(0.5, x, n + 1)
     gate.global_rz(0.5)
+    z = spec.get_static_trap(zone_id="traps")
+    gate.top_hat_cz(z, 1.5, lower_buffer=2.5)
+    gate.top_hat_cz(z, lower_buffer=0.5, upper_buffer=4.5)
+    gate.top_hat_cz(z, upper_buffer=1.25)
+    gate.top_hat_cz(zone=z)
+    gate.local_r(rotation_angle=0.25, axis_angle=0.5, zone=z)
+    gate.local_rz(0.125, zone=z[0:2, 0:1])
     if c:
         r0(x, 1.5)
     schedule.reverse(f1)(x, 1.0, n)
